@@ -133,6 +133,9 @@ func (c *inprocClient) ProcessRange(ctx context.Context, in *pbssinternal.Proces
 		switch where {
 		case "mid":
 			failAt = int64(mid)
+		case "drain":
+			failAt = int64(mid)
+			jctx = withDrain(ctx)
 		case "exec":
 			jctx = context.WithValue(ctx, hangKey{}, &hang{Block: mid})
 			timeout = 150 * time.Millisecond
